@@ -365,7 +365,7 @@ def correspond(run, corr):
     run.drift["tdma_sched.c"] = vf.src_hash_c(src, ["wrap_bucket", "tdma_schedule", "tdma_schedule_set", "tdma_sched_advance",
                                                      "tdma_sched_flag_scan", "_tdma_sched_bucket_sort", "tdma_sched_execute",
                                                      "tdma_sched_reset"])
-    n = run.scale(1500, 30000)
+    n = run.scale(6000, 60000)
     lines = exhaustive_prio_lines()
     kinds = ["prio-exhaustive"] * len(lines)
     l2, k2 = corr_lines(run, n)
@@ -670,7 +670,7 @@ def search(run, corr, deep):
         exe = build_harness(run)
     g = Gen(run.rng)
     found = 0
-    n = run.scale(600, 8000) * (6 if deep else 1)
+    n = run.scale(3000, 30000) * (4 if deep else 1)
     hist = []
     # the disagreeing histories of the correspondence first (if they obey the premises)
     for d in corr.disagreements:
